@@ -35,6 +35,7 @@ EXTRA = {
             ('TraceBtpe', 'TraceBtpe.cfg', 'h2pe.ndjson', {}, {'h2pe1': ['T', 'out'], 'h2pet': ['lo', 'hi']}),
             ('TraceBtpe', 'TraceBtpe.cfg', 'pd.ndjson', {}, {'pd': ['T', 'k'], 'pdh': ['ap', 'am']}),
             ('TraceBtpe', 'TraceBtpe.cfg', 'rej64.ndjson', {}, {'rej64': ['T', 'x']}),
+            ('TraceBtpe', 'TraceBtpe.cfg', 'binv.ndjson', {}, {'binv': ['W1', 'mono']}),
             ('TraceBtpe', 'TraceBtpe.cfg', 'geo.ndjson', {}, {'geot': ['T', 'out_ok'], 'geok': ['k'], 'geopi': ['T'], 'geom': ['T', 'out_ok']}),
             ('TraceRejection', 'TraceRejection.cfg', 'knuth.ndjson', {}, {'knuth32': ['oneword', 'P'], 'knuth64': ['p0', 'witness']})],
     'C06': [('TraceZigAcc', 'TraceZigAcc.cfg', 'zigacc.ndjson', {}, {'wedge': ['T', 'inwedge', 'xq'], 'ntail': ['T'], 'etail': ['cnt']})],
@@ -59,7 +60,7 @@ def corrupt(ev, field):
         elif isinstance(v[0], int):
             # little-endian base-2^14 limbs (T, cnt, last, p0, xq): corrupt the most significant limb; otherwise the first entry
             w = list(v)
-            if field in ('T', 'cnt', 'last', 'p0', 'xq', 'lo', 'hi', 'ap', 'am', 'outq'):
+            if field in ('T', 'cnt', 'last', 'p0', 'xq', 'lo', 'hi', 'ap', 'am', 'outq', 'W1'):
                 w[-1] += 1
             elif field in ('oneword', 'tail') and len(w) == 3:
                 w[0] += 64
